@@ -297,6 +297,22 @@ theorem no_onReq (c : Cfg) (hr : c.fixResub = true) (s : St) (p : ObjId) (r : Re
       split
       · exact no_closeP c _ p hh
       · exact hh
+    · rename_i qs cl
+      simp only [onPutMany]
+      have hh : NoOrphan (if (s.obj p).verified then respond (putAll c s p qs) p 204 Body.none
+           else respond s p 401 Body.none).1 := by
+        split
+        · have ha : NoOrphan (putAll c s p qs) ∧ Live (putAll c s p qs) p := by
+            apply putAll_pres (fun t => NoOrphan t ∧ Live t p) c p
+            · intro t x ev val ht
+              exact ⟨no_putChars c hr t p x ev val ht.1 ht.2,
+                     live_of_rel (rel_putChars c t p x ev val) (invA_putChars c t p x ev val ht.2.a) ht.2⟩
+            · exact ⟨h, hl⟩
+          exact no_respond _ p _ _ ha.1
+        · exact no_respond _ p _ _ h
+      split
+      · exact no_closeP c _ p hh
+      · exact hh
     · split <;> exact no_respond _ p _ _ h
     · split
       · exact no_respond { s with prepared := _ } p _ _ h
